@@ -366,7 +366,7 @@ def model_index_by_name(f, container, alias):
     import itertools
     import a7
     nrows = 0
-    for n, ARG in itertools.product(range(4), ('A', 'a')):
+    for n, ARG in itertools.product(range(4), ('A', 'a', 'A ')):      # 'A ': a space-padded query matches no stored (trimmed) name
         for combo in itertools.product(('A', 'a', 'B'), repeat=n):
             model = {'this.%s.size' % container: n, 'arg0': ARG, '#alias': dict(alias)}
             for k, nm in enumerate(combo):
@@ -788,6 +788,31 @@ def check_typed_getter(prog, res, f, spec):
                 end = 'undecided'
             o2 = 'return' if end == 'NEXIT' else (end.split('@')[0] if end.startswith('throw:') else 'undecided')
             if o2 == 'undecided':
+                # the test also looks at the dimensions / the amount of data: enumerate a few reachable shapes (a parameter set from n values has
+                # dimension [n]; [] is the shape of a fresh parameter) - the outcome must be the documented one in each
+                outs = {}
+                for dims in ((), (0,), (1,), (2,), (2, 0), (1, 2)):
+                    m = {'this._data_type': tv, 'this._dimension.size': len(dims)}
+                    prod = 1
+                    for k_, d_ in enumerate(dims):
+                        m['this._dimension[%d]' % k_] = d_
+                        prod *= d_
+                    for fl in ('_param_data_int', '_param_data_float', '_param_data_string'):
+                        m['this.%s.size' % fl] = prod if dims else 0
+                    try:
+                        _, e2, _u = a7.walk(f, m, follow_loops=True, max_steps=2000)
+                    except a7.OutOfRange:
+                        e2 = 'undecided'
+                    outs[dims] = 'return' if e2 == 'NEXIT' else (e2.split('@')[0] if e2.startswith('throw:') else 'undecided')
+                wrong = {d_: o_ for d_, o_ in outs.items() if o_ not in ('undecided', want)}
+                if wrong:
+                    d0 = sorted(wrong)[0]
+                    res.viol('typed-getter', f.sig, f.loc(), 'with stored type %d and dimensions %s the getter ends in %s, documented: %s' % (tv, list(d0), wrong[d0], want),
+                             function=f.sig, expr='type=%d' % tv, sure=True)
+                    bad = True
+                    continue
+                if all(o_ == want for o_ in outs.values()):
+                    continue
                 res.undecided('typed-getter', f.sig, f.loc(), 'with stored type %d the outcome cannot be evaluated (%s)' % (tv, end), function=f.sig, expr='type=%d' % tv)
                 bad = True
                 continue
